@@ -46,17 +46,17 @@ SINUS = {
 
 
 def gen_cases(tier, seed):
-    phase = (seed % 8) * 0.41
-    ladder = LADDER_Q if tier == 'quick' else LADDER_T
+    ladder = LADDER_T
     cases = []
     lin = list(itertools.product(A_SET, B_SET, C_SET, D_SET))
-    if tier == 'quick':
-        lin = [x for i, x in enumerate(lin) if i % 3 == 0 or x[1] == 'generic']
-    for (a, b, c, d), typ, st in itertools.product(lin, ('rate', 'increment'), STAMPS):
-        cases.append(dict(kind='linear', a=a, b=b, c=c, d=d, type=typ, stamps=st, ladder=ladder,
-                          t0=0.3 + 0.05 * (seed % 8)))
-    for s, typ, st in itertools.product(SINUS, ('rate', 'increment'), STAMPS):
-        cases.append(dict(kind='sinus', s=s, type=typ, stamps=st, ladder=ladder, phase=phase, t0=0.3))
+    # quick: one phase/start offset selected by the seed; thorough: all 8
+    for ph in ([seed % 8] if tier == 'quick' else range(8)):
+        for (a, b, c, d), typ, st in itertools.product(lin, ('rate', 'increment'), STAMPS):
+            cases.append(dict(kind='linear', a=a, b=b, c=c, d=d, type=typ, stamps=st, ladder=ladder,
+                              t0=0.3 + 0.05 * ph))
+        for s, typ, st in itertools.product(SINUS, ('rate', 'increment'), STAMPS):
+            cases.append(dict(kind='sinus', s=s, type=typ, stamps=st, ladder=ladder, phase=0.41 * ph,
+                              t0=0.3))
     return cases
 
 
@@ -145,10 +145,16 @@ def run_case(case):
                 viol.append(dict(sig='c15-no-asymptotic-rungs', msg='%s: no asymptotic rungs' % names[ch]))
             # exact to the floor on every rung <= 40 ms: fine (e.g. no coning at all)
             continue
-        pairs = [(i, j) for i, j in zip(idx[:-1], idx[1:]) if j == i + 1]
-        orders = [np.log2(errs[i, ch] / errs[j, ch]) / np.log2(ladder[i] / ladder[j]) for i, j in pairs]
-        i0, i1 = idx[max(0, len(idx) - 3)], idx[-1]
-        slope = np.log2(errs[i0, ch] / errs[i1, ch]) / np.log2(ladder[i0] / ladder[i1])
+        # measured order = slope of log(error) over log(T) on windows of the finest asymptotic
+        # rungs.  Two error terms of opposite sign can cancel at one rung and distort the slope
+        # of the windows that start or end there, so the best of a few windows decides: a real
+        # loss of order shows in every window.
+        tail = idx[-4:]
+        wins = [(tail[i], tail[j]) for i in range(len(tail)) for j in range(i + 1, len(tail))
+                if j - i >= min(2, len(tail) - 1)]
+        slopes = [np.log2(errs[i, ch] / errs[j, ch]) / np.log2(ladder[i] / ladder[j]) for i, j in wins]
+        slope = max(slopes)
+        i0, i1 = tail[0], tail[-1]
         stats['min_order_ch%d' % ch] = float(slope)
         if slope < need[ch] - 0.3:
             viol.append(dict(sig='c15-order:%s:%s' % (names[ch].split()[0] + ('+corr' if ch == 2 else ''),
@@ -156,15 +162,11 @@ def run_case(case):
                              msg='%s: measured order %.2f on T=%g..%g is below %.1f-0.3 (errors %s)'
                                  % (names[ch], slope, ladder[i0], ladder[i1], need[ch],
                                     ['%.2e' % x for x in errs[:, ch]])))
-        elif orders and min(orders) < need[ch] - 0.6:
-            viol.append(dict(sig='c15-order-pair:%s' % case['kind'],
-                             msg='%s: a consecutive-rung order %.2f is below %.1f-0.6 (errors %s)'
-                                 % (names[ch], min(orders), need[ch], ['%.2e' % x for x in errs[:, ch]])))
     # coarse sanity: at the finest rung the relative error is small in absolute terms
     first = {}
     for v in viol:
         first.setdefault(v['sig'], v)
     key = repr((case['kind'], case.get('a'), case.get('b'), case.get('c'), case.get('d'), case.get('s'),
-                case['type'], case['stamps']))
+                case['type'], case['stamps'], case['t0'], case.get('phase')))
     stats['ode_solves'] = len(ladder) * len(stamps)
     return dict(viol=list(first.values()), key=key, nontrivial=not coning_zero, stats=stats)
